@@ -1,8 +1,8 @@
 #!/bin/bash
-# tools/run_all.sh [quick|thorough] : run every check once, print one line per check
+# tools/run_all.sh [quick|thorough] : run every check once, print the summary, known-finding and violation lines
 cd "$(dirname "$0")/.."
 tier=${1:-quick}
 for id in C01 C02 C03 C04 C05 C06 C07 C08 C09 C10 C11 C12 C13 C14 C15 C16 C17 C18 C19 C20; do
-  out=$(./check $id --tier $tier 2>&1 | grep -v '^proptest'); rc=$?
-  echo "$out" | grep -E "^(KNOWN-FINDING|VIOLATION|$id )" | cut -c1-220
+  ./check $id --tier $tier 2>&1 | grep -v '^proptest' | cut -c1-400
+  echo "   exit=$? ($id)"
 done
